@@ -411,8 +411,13 @@ class Unit:
             g.emit("use %s;" % u)
         g.emit("verus! {")
         pre = os.path.join(self.dir, "prelude.rs")
+        pretxt = ""
+        for inc in self.cfg.get("includes", []):
+            pretxt += open(os.path.join(VERIF, "units", inc)).read() + "\n"
         if os.path.exists(pre):
-            lo, hi = g.emit("// ---- prelude (shims, spec functions, assumed contracts) ----\n" + open(pre).read())
+            pretxt += open(pre).read()
+        if pretxt:
+            lo, hi = g.emit("// ---- prelude (shims, spec functions, assumed contracts) ----\n" + pretxt)
             g.region(lo, hi, kind="prelude")
         g.emit("// ---- extracted from /repo (mechanical; see unit.toml) ----")
         want_canary = self.cfg.get("canaries", True)
